@@ -516,10 +516,37 @@ def classes():
 
     from pams.events import FundamentalPriceShock, OrderMistakeShock, PriceLimitRule, TradingHaltRule
 
+    def extending_of(base):
+        """a user rule built on a bundled one: after the bundled setup it adds further markets to the rule's public
+        target_markets dict (e.g. resolved from a group name)."""
+
+        class Extending(base):
+            def setup(self, settings, *args, **kwargs):
+                extra = settings.get("extraTargets", [])
+                base.setup(self, {k: v for k, v in settings.items() if k != "extraTargets"}, *args, **kwargs)
+                for name in extra:
+                    self.target_markets[name] = self.simulator.name2market[name]
+                taps.hits["rule_subclass_adding_targets_after_the_bundled_setup"] += 1
+
+        Extending.__name__ = Extending.__qualname__ = "Extending" + base.__name__
+        return Extending
+
+    extendings = {"Extending" + b.__name__: extending_of(b) for b in (PriceLimitRule, TradingHaltRule)}
+
+    class UserIndexMarket(IndexMarket):
+        """a user-registered subclass of the index market that keeps every documented meaning (it only counts)."""
+
+        def setup(self, settings, *args, **kwargs):
+            super().setup(settings, *args, **kwargs)
+            self.n_index_queries = 0
+            taps.hits["user_subclass_of_the_index_market_set_up"] += 1
+
     retries = {"Retry" + b.__name__: retry_of(b)
                for b in (FundamentalPriceShock, OrderMistakeShock, PriceLimitRule, TradingHaltRule)}
     _classes = {
         **retries,
+        **extendings,
+        "UserIndexMarket": UserIndexMarket,
         "ScriptAgent": ScriptAgent,
         "ScriptHFTAgent": ScriptHFTAgent,
         "RecordingLogger": RecordingLogger,
@@ -632,8 +659,12 @@ def run_runner_case(case, sinks=(), with_logger=True, extra_classes=(), settings
                     v["class"] = "Retry" + v["class"]
                 if isinstance(v, dict) and v.get("derived") and v.get("class") == "ProbeEvent":
                     v["class"] = "DerivedProbeEvent"
+                if isinstance(v, dict) and "extraTargets" in v and v.get("class") in ("PriceLimitRule", "TradingHaltRule"):
+                    v["class"] = "Extending" + v["class"]
+                if isinstance(v, dict) and v.get("userSubclass") and v.get("class") == "IndexMarket":
+                    v["class"] = "UserIndexMarket"
             for c in (cls["ScriptAgent"], cls["ScriptHFTAgent"], cls["ProbeEvent"], cls["DerivedProbeEvent"], cls["DepthMarket"],
-                      cls["FalsyScriptAgent"]) + tuple(v for k, v in cls.items() if k.startswith("Retry")) \
+                      cls["FalsyScriptAgent"]) + tuple(v for k, v in cls.items() if k.startswith(("Retry", "Extending", "UserIndex"))) \
                     + tuple(extra_classes):
                 runner.class_register(c)
             buf = io.StringIO()
@@ -754,6 +785,8 @@ def gen_runner_case(rng, tier, profile="matching", **kw):
         p = sum(cfg[c]["marketPrice"] * cfg[c]["outstandingShares"] for c in comps) / tot
         cfg["IDX"] = {"class": "IndexMarket", "tickSize": tick, "marketPrice": p, "markets": list(comps),
                       "outstandingShares": rng.choice([1000, 5000])}
+        if rng.random() < 0.2:
+            cfg["IDX"]["userSubclass"] = True
         cfg["simulation"]["markets"].append("IDX")
         all_markets.append("IDX")
     # agents
@@ -820,7 +853,7 @@ def gen_runner_case(rng, tier, profile="matching", **kw):
     return {"drive": "runner", "seed": rng.randrange(1 << 31), "config": cfg, "profile": profile}
 
 
-def gen_accounting_case(rng, tier, hostile=None, hft=None, hostile_hft=False, penny=None):
+def gen_accounting_case(rng, tier, hostile=None, hft=None, hostile_hft=False, penny=None, auction=False):
     """workload for the life-cycle monitors: several markets, normal and HFT scripted agents that cancel
     (resting, partly filled, filled, expired, already cancelled orders), quote both sides (self-trades),
     short and absent ttl, placement-only sessions followed by execution sessions (batch clearing)."""
@@ -930,6 +963,26 @@ def gen_accounting_case(rng, tier, hostile=None, hft=None, hostile_hft=False, pe
         # a long session: the run crosses the 100-step storage and generation chunks
         sessions[-1]["iterationSteps"] = rng.choice([101, 130, 205])
         sessions[-1]["maxNormalOrders"] = 1
+    if auction:
+        # a long pre-opening session collects well over a hundred crossing pairs (agents quoting both sides through
+        # each other); the first order of the next session clears them in ONE round
+        sessions[:] = [
+            {"sessionName": 0, "iterationSteps": rng.choice([45, 70, 110]), "withOrderPlacement": True,
+             "withOrderExecution": False, "withPrint": False, "maxNormalOrders": 6, "maxHighFrequencyOrders": 1,
+             "highFrequencySubmitRate": 0.5},
+            {"sessionName": 1, "iterationSteps": rng.choice([3, 8]), "withOrderPlacement": True,
+             "withOrderExecution": True, "withPrint": False, "maxNormalOrders": 3, "maxHighFrequencyOrders": 2,
+             "highFrequencySubmitRate": 1.0}]
+        for k, v in cfg.items():
+            if isinstance(v, dict) and "program" in v and v["class"] != "ScriptHFTAgent":
+                v["numAgents"] = max(v.get("numAgents", 1), 4)
+                v["program"] = {"p_act": 1.0, "max_batch": 2, "actions": [
+                    [6, {"a": "both", "off": [1, 3], "vol": [1, 3], "ttl": [None]}],
+                    [2, {"a": "limit", "side": "any", "off": [-3, 3], "vol": [1, 4], "ttl": [None, 200]}],
+                    [1, {"a": "cancel", "which": "any"}]]}
+        for k in ("OMS", "HALT", "LIMIT"):
+            if k in cfg:
+                del cfg[k]
     cfg["simulation"]["sessions"] = sessions
     sprinkle_empty_event_lists(rng, cfg, 0.2)
     case = {"drive": "runner", "seed": rng.randrange(1 << 31), "config": cfg, "profile": "accounting"}
@@ -1041,12 +1094,22 @@ def sprinkle_empty_event_lists(rng, cfg, p=0.3):
     return n
 
 
+def split_extra_targets(rng, cfg, p=0.15):
+    """some rules get part of their targets through a user subclass that adds them after the bundled setup."""
+    for name, v in cfg.items():
+        if isinstance(v, dict) and v.get("class") in ("PriceLimitRule", "TradingHaltRule") and "firstAttempt" not in v \
+                and len(v.get("targetMarkets", [])) >= 1 and rng.random() < p:
+            t = list(v["targetMarkets"])
+            k = rng.randint(1, len(t))
+            v["targetMarkets"], v["extraTargets"] = t[:len(t) - k], t[len(t) - k:]
+
+
 def add_first_attempts(rng, cfg, p=0.15):
     """mark some built-in events of the configuration as 'set up twice: refused first attempt, then corrected'."""
     n = 0
     for name, v in cfg.items():
         if isinstance(v, dict) and v.get("class") in ("PriceLimitRule", "TradingHaltRule", "FundamentalPriceShock",
-                                                      "OrderMistakeShock") and rng.random() < p:
+                                                      "OrderMistakeShock") and "extraTargets" not in v and rng.random() < p:
             v["firstAttempt"] = flawed_settings(rng, v)
             n += 1
     sprinkle_empty_event_lists(rng, cfg)
